@@ -110,7 +110,8 @@ pub struct Scenario {
     #[serde(default)]
     pub p_layout: u8,
     /// how -n / -h are spelled: 0 = separate short options, 1 = combined (`-nh`), 2 = long
-    /// forms, 3 = short options after the FILE arguments
+    /// forms, 3 = short options after the FILE arguments, 4 = `--` before the FILE arguments,
+    /// 5 = the pattern file attached to its option (`-fpats.txt`)
     #[serde(default)]
     pub flag_style: u8,
     /// soft and hard RLIMIT_NOFILE of the child (0 = inherited): a tool that reads its inputs one
@@ -666,8 +667,13 @@ fn argv(sc: &Scenario) -> Vec<String> {
         a.push(v);
     }
     if sc.p_count < sc.patterns.len() {
-        a.push("-f".to_string());
-        a.push("pats.txt".to_string());
+        if sc.flag_style == 5 {
+            // the value attached to the short option
+            a.push("-fpats.txt".to_string());
+        } else {
+            a.push("-f".to_string());
+            a.push("pats.txt".to_string());
+        }
     }
     let mut late: Vec<String> = vec![];
     match sc.flag_style {
@@ -711,6 +717,10 @@ fn argv(sc: &Scenario) -> Vec<String> {
             a.push(cv.into());
         }
     }
+    if sc.flag_style == 4 {
+        // the conventional end-of-options marker
+        a.push("--".into());
+    }
     for (name, _) in &sc.files {
         a.push(name.clone());
     }
@@ -746,28 +756,35 @@ pub fn execute(sc: &Scenario, bins: &Bins, dir: &Path) -> RunResult {
     // (64 KiB): the sizes the reader sees are then a function of its own requests only.
     let mut feeders: Vec<std::thread::JoinHandle<()>> = vec![];
     let mut fifos: Vec<PathBuf> = vec![];
+    let mut fifo = |name: &str, data: Vec<u8>| {
+        let p = dir.join(name);
+        let cp = std::ffi::CString::new(p.as_os_str().as_encoded_bytes()).expect("harness: file name with NUL");
+        let rc = unsafe { libc::mkfifo(cp.as_ptr(), 0o600) };
+        assert!(rc == 0, "harness: mkfifo failed: {}", std::io::Error::last_os_error());
+        let p2 = p.clone();
+        feeders.push(std::thread::spawn(move || {
+            // blocks until the reader opens the FIFO (or the harness releases it below)
+            if let Ok(mut f) = std::fs::OpenOptions::new().write(true).open(&p2) {
+                let _ = f.write_all(&data);
+            }
+        }));
+        fifos.push(p);
+    };
     for (name, lines) in &sc.files {
         if sc.pipe_inputs {
-            let p = dir.join(name);
-            let cp = std::ffi::CString::new(p.as_os_str().as_encoded_bytes()).expect("harness: file name with NUL");
-            let rc = unsafe { libc::mkfifo(cp.as_ptr(), 0o600) };
-            assert!(rc == 0, "harness: mkfifo failed: {}", std::io::Error::last_os_error());
-            let data = file_bytes(lines);
-            let p2 = p.clone();
-            feeders.push(std::thread::spawn(move || {
-                // blocks until the reader opens the FIFO (or the harness releases it below)
-                if let Ok(mut f) = std::fs::OpenOptions::new().write(true).open(&p2) {
-                    let _ = f.write_all(&data);
-                }
-            }));
-            fifos.push(p);
+            fifo(name, file_bytes(lines));
         } else {
             w(name, &file_bytes(lines));
         }
     }
     w("stdin.txt", &file_bytes(&sc.stdin_lines));
     if sc.p_count < sc.patterns.len() {
-        w("pats.txt", &pattern_file_bytes(sc));
+        // `-f <(generator)`: the pattern file of a pipe-mode run is a FIFO as well
+        if sc.pipe_inputs {
+            fifo("pats.txt", pattern_file_bytes(sc));
+        } else {
+            w("pats.txt", &pattern_file_bytes(sc));
+        }
     }
     w("sched.txt", sc.sched.render().as_bytes());
     let bin = match sc.profile {
@@ -1411,7 +1428,7 @@ pub fn generate(seed: u64, cfg: &GenCfg) -> Scenario {
         sched: Sched::none(),
         pat_file_layout: if rng.chance(1, 3) { 1 } else { 0 },
         p_layout: 0,
-        flag_style: if rng.chance(1, 3) { rng.below(4) as u8 } else { 0 },
+        flag_style: if rng.chance(1, 3) { rng.below(6) as u8 } else { 0 },
         nofile_limit,
         pipe_inputs: false,
     };
